@@ -61,6 +61,9 @@ CHECKS = {
     'C17': dict(engine='tlc-eaoscenario', technique='TLC enumeration of EAOScenario (two-stage fork and robust valuation over the EAOGuards semantics) giving lattice values of SLP / wait-and-see / robust; compared with make_slp and the robust target of the real code together with the defining inequalities', cat='model_checking', ref='DESIGN.md 4 (C17), 2.5',
                 text='EAOScenario forks the state at the stage boundary (present moves common, one future per scenario, invariants PresentShared/PresentCommon) and, in robust mode, values one schedule under every scenario. TLC gives the lattice SLP optimum, per-scenario optima and best worst case. Binding: make_slp(...).optimize() lies between the expected value of fixing the present to each single-scenario solution (fix_time_window) and the mean of the per-scenario optima, equals the deterministic optimum for coinciding scenarios and the model SLP optimum on integral instances, present variables occur once in the extended problem; the robust solution is feasible, its worst case is >= that of every single-scenario solution, <= the smallest scenario optimum and >= the model best worst case.',
                 note='2-3 scenarios, T=3, boundary after first / before last step; scenarios share present prices; trusted: TLC, HiGHS.'),
+    'C10': dict(engine='tlc-eaohistory', technique='TLC exploration of the lifecycle model EAOHistory (labelled state graph) -> histories (all of length <= 2, one per transition via shortest path, random walks) executed on real objects, each returned problem compared with Fresh(call, arguments)', cat='model_checking', ref='DESIGN.md 4 (C10), 2.6',
+                text='EAOHistory models what the implementation keeps between calls (grid each asset points to, portfolio grid, whose window sits in the shared restricted grid, normal form of user dictionaries) with the public calls as actions (asset / portfolio set-up with and without grid, split set-up, optimise+output, save/load). TLC explores the graph (TypeOK, PortfolioOwnsGrid, FormMonotone); the harness executes the derived histories on real objects (contract with interval-dictionary limits and take period, storage, structured wrapper, market; grids with another horizon / zone) and compares every call with what brand-new objects return for the same arguments; the projected implementation state is compared with the model state as a diagnostic only.',
+                note='Depth 3; quick tier samples the depth-3 transitions; violation criterion is only the returned problem / an unexpected exception.'),
 }
 
 ENGINES = [
@@ -76,6 +79,8 @@ ENGINES = [
          kind_free_text='TLA+ specification of time grids / sub-grids / interval data enumerated by TLC; every call replayed on the real Timegrid'),
     dict(name='tlc-eaoscenario', path='spec/EAOScenario.tla', serves_properties=['C17'],
          kind_free_text='TLA+ two-stage / robust scenario semantics over EAOGuards enumerated by TLC; values compared with make_slp and the robust optimisation target'),
+    dict(name='tlc-eaohistory', path='spec/EAOHistory.tla', serves_properties=['C10', 'C11'],
+         kind_free_text='TLA+ lifecycle model explored by TLC (state graph dump with action labels); histories replayed on real objects against fresh objects'),
 ]
 
 NOT_APPLICABLE = []
